@@ -34,6 +34,7 @@ pub const S_MIXED_ORDER_KEY: u8 = 14;
 pub const S_BOUNDARY_S: u8 = 15;
 pub const S_SPECIAL_R: u8 = 16;
 pub const S_NONCANONICAL_KEY: u8 = 17;
+pub const S_CRAFTED_S: u8 = 18;
 const KINDS: &[&str] = &[
     "deliver_untouched",
     "flip_signature_bit",
@@ -53,6 +54,7 @@ const KINDS: &[&str] = &[
     "boundary_value_s",
     "special_encoding_r",
     "noncanonical_public_key_encoding",
+    "crafted_equation_with_boundary_s",
 ];
 
 /// encodings that decode to the identity but are not its canonical 32 bytes:
@@ -179,6 +181,11 @@ impl SigChannel {
         }
         for v in 0..4u64 {
             ops.push(Op::new(0, S_NONCANONICAL_KEY).arg(v).seed(rng.data_seed()));
+        }
+        // S from the boundary family around L and 2^252 with R = enc([S]B) computed by the model and a small-order
+        // key: the equation holds for ANY S, so only the canonicity rule decides (accept iff S < L)
+        for _ in 0..20 {
+            ops.push(Op::new(0, S_CRAFTED_S).arg(rng.below(5 * 256 * 3)).off(rng.range(0, 7) as u8).seed(rng.data_seed()));
         }
         // R given as a non-canonical encoding of the point the equation yields: byte equality must fail
         for j in 0..8u64 {
@@ -396,6 +403,33 @@ impl Scenario for SigChannel {
                     s[..32].copy_from_slice(&TORSION[0]);
                     use_model = true;
                 }
+                S_CRAFTED_S => {
+                    let sv = big::boundary_scalar(op.arg);
+                    let mut j = (op.off % 8) as usize;
+                    if j == 2 {
+                        j = 3; // not the all-zero key
+                    }
+                    p = TORSION[j];
+                    let r = med::encode_scalarmult_base(&sv);
+                    match torsion_message_r(&r, &p, op.seed) {
+                        Some(tm) => m = tm,
+                        None => {
+                            obs.hit("skipped.no_torsion_message_in_512_tries");
+                            continue;
+                        }
+                    }
+                    s[..32].copy_from_slice(&r);
+                    s[32..].copy_from_slice(&sv);
+                    if big::lt_l(&sv) {
+                        obs.hit("probe.crafted_valid_signature_with_boundary_s");
+                        if sv[31] & 0xf0 != 0 {
+                            obs.hit("probe.crafted_valid_signature_with_s_at_or_above_2^252");
+                        }
+                    } else {
+                        obs.hit("probe.crafted_equation_with_noncanonical_s");
+                    }
+                    use_model = true;
+                }
                 S_TORSION_NONCANONICAL_R => {
                     let j = (op.arg % 8) as usize;
                     let e = ((op.arg / 8) % 3) as usize;
@@ -433,6 +467,7 @@ impl Scenario for SigChannel {
                 S_BOUNDARY_S => "fault.boundary_value_s",
                 S_SPECIAL_R => "fault.special_encoding_r",
                 S_NONCANONICAL_KEY => "fault.byzantine_noncanonical_key_encoding",
+                S_CRAFTED_S => "fault.byzantine_crafted_equation_boundary_s",
                 S_TORSION_NONCANONICAL_R => "fault.byzantine_small_order_key_noncanonical_r",
                 _ => "fault.byzantine_small_order_key",
             });
